@@ -80,6 +80,8 @@ fn typed_build_line(_ty: &str, _f: [&str; 4], _qs: &[(&str, &str)]) -> Option<St
     None
 }
 
+const SCALAR_CHUNK: usize = 8192;
+
 #[derive(Default)]
 struct ChunkOut {
     count: u64,
@@ -122,11 +124,14 @@ fn chunk_ids(tier: Tier) -> Vec<String> {
     for i in 0..UNIVERSE.len() {
         ids.push(format!("build:{i}"));
     }
+    for i in 0..(crate::sweeps::N_SCALARS as usize).div_ceil(SCALAR_CHUNK) {
+        ids.push(format!("scalar:{i}"));
+    }
     ids
 }
 
 fn stream_lenses(tier: Tier) -> Vec<(lens::Lens, usize)> {
-    lens::all_lenses().into_iter().filter(|l| !l.name.starts_with("A7")).map(|l| {
+    lens::all_lenses().into_iter().map(|l| {
         let n = l.bound(tier).saturating_sub(1);
         (l, n)
     }).collect()
@@ -165,6 +170,25 @@ fn run_chunk(id: &str, tier: Tier, verbose: bool) -> ChunkOut {
             } else if n >= 1 {
                 buf.push_str(l.alphabet[ti]);
                 rec(&l, &mut buf, 1, n, suffix, &mut out, verbose);
+            }
+        },
+        "scalar" => {
+            // every scalar value c in typed and untyped names: after an ASCII upper-case letter, after a
+            // lower-case letter (word-final position), alone
+            let k: usize = parts[1].parse().unwrap();
+            let lo = k * SCALAR_CHUNK;
+            let hi = (lo + SCALAR_CHUNK).min(crate::sweeps::N_SCALARS as usize);
+            for i in lo..hi {
+                let c = crate::sweeps::scalar(i as u32);
+                for name in [format!("A{c}"), format!("a{c}"), c.to_string()] {
+                    for ty in ["nuget", "pypi", "t"] {
+                        let f = ["", name.as_str(), "", ""];
+                        let input = format!("{ty}|{}", name.escape_debug());
+                        let g = generic_build_line(ty, f, &[]);
+                        let t = typed_build_line(ty, f, &[]);
+                        out.push(&input, g, t, verbose);
+                    }
+                }
             }
         },
         "spell" => {
